@@ -16,7 +16,7 @@ use serde::{Deserialize, Serialize};
 use std::collections::{BTreeMap, HashMap};
 use std::future::Future;
 use std::pin::Pin;
-use std::sync::atomic::{AtomicBool, AtomicU64, Ordering};
+use std::sync::atomic::{AtomicU64, Ordering};
 use std::sync::{Arc, Condvar, Mutex};
 use std::task::{Context, Poll, Wake, Waker};
 use std::time::Duration;
@@ -292,10 +292,8 @@ struct Shared {
 	ctrl: Condvar,
 	/// tasks the operators have spawned so far (counted where the items enter an operator)
 	spawned: AtomicU64,
-	/// per stage: the operator's output stream has been polled since the last completion of one of
-	/// its tasks woke the consumer, i.e. its unordered buffer holds the consumer's waker and the
-	/// next completion will wake the consumer again
-	armed: Vec<AtomicBool>,
+	/// the case, for the message of a machinery error
+	case_text: String,
 }
 
 impl Shared {
@@ -373,13 +371,14 @@ impl Shared {
 	fn summary(&self) -> String {
 		let st = self.st.lock().unwrap();
 		format!(
-			"spawned={} started={} released={} finished={} blocked={} in_flight={}",
+			"spawned={} started={} released={} finished={} blocked={} in_flight={}; case {}",
 			self.spawned.load(Ordering::SeqCst),
 			st.started,
 			st.released,
 			st.finished,
 			st.blocked.len(),
-			st.in_flight
+			st.in_flight,
+			self.case_text
 		)
 	}
 }
@@ -492,25 +491,6 @@ impl Drop for PooledRt {
 
 type Chunks = Arc<Mutex<Vec<Vec<(TileCoord3, Blob)>>>>;
 
-/// Pass-through around the output of one operator that notes when the operator is polled.
-struct Probe {
-	inner: futures::stream::BoxStream<'static, (TileCoord3, Blob)>,
-	sh: Arc<Shared>,
-	stage: usize,
-}
-
-impl futures::Stream for Probe {
-	type Item = (TileCoord3, Blob);
-	fn poll_next(mut self: Pin<&mut Self>, cx: &mut Context<'_>) -> Poll<Option<Self::Item>> {
-		self.sh.armed[self.stage].store(true, Ordering::SeqCst);
-		self.inner.as_mut().poll_next(cx)
-	}
-}
-
-fn probed(sh: &Arc<Shared>, stream: TileStream<'static>, stage: usize) -> TileStream<'static> {
-	TileStream::from_stream(Box::pin(Probe { inner: stream.stream, sh: Arc::clone(sh), stage }))
-}
-
 fn apply_stage(sh: &Arc<Shared>, stream: TileStream<'static>, stage: usize) -> TileStream<'static> {
 	let op = sh.plan.ops[stage];
 	let n = sh.plan.n;
@@ -524,7 +504,7 @@ fn apply_stage(sh: &Arc<Shared>, stream: TileStream<'static>, stage: usize) -> T
 			.boxed(),
 	);
 	let s = Arc::clone(sh);
-	let out = match op {
+	match op {
 		Op::Map => input.map_blob_parallel(move |blob| {
 			let idx = parse_idx(blob.as_slice(), n);
 			s.enter(stage, idx, &lossy(blob.as_slice()));
@@ -543,8 +523,7 @@ fn apply_stage(sh: &Arc<Shared>, stream: TileStream<'static>, stage: usize) -> T
 			out
 		}),
 		Op::Plain | Op::FromCoord => unreachable!("checked by plan_of"),
-	};
-	probed(sh, out, stage)
+	}
 }
 
 fn build_stream(sh: &Arc<Shared>) -> TileStream<'static> {
@@ -586,10 +565,37 @@ fn build_stream(sh: &Arc<Shared>) -> TileStream<'static> {
 // consumer + controller
 // ---------------------------------------------------------------------------------------
 
+/// Wait until every task whose callback has returned is complete as far as the runtime is
+/// concerned (result stored, join handle notified, task released), i.e. the only live tasks are the
+/// ones still inside their callbacks.
+fn settle(sh: &Arc<Shared>) {
+	let metrics = tokio::runtime::Handle::current().metrics();
+	let t0 = std::time::Instant::now();
+	let mut spins = 0u32;
+	loop {
+		let in_flight = sh.st.lock().unwrap().in_flight as usize;
+		if metrics.num_alive_tasks() <= in_flight {
+			return;
+		}
+		spins += 1;
+		if spins < 200 {
+			std::hint::spin_loop();
+		} else if spins < 2000 {
+			std::thread::yield_now();
+		} else {
+			std::thread::sleep(Duration::from_micros(50));
+			if t0.elapsed() > STALL {
+				die(&format!("C14: finished tasks did not complete within 20 s (alive={}, {})", metrics.num_alive_tasks(), sh.summary()));
+			}
+		}
+	}
+}
+
 fn drive(sh: &Arc<Shared>, mut fut: Pin<Box<dyn Future<Output = ()>>>, batch: usize) {
 	let sig = Arc::new(Signal { set: Mutex::new(false), cv: Condvar::new() });
 	let waker = Waker::from(Arc::clone(&sig));
 	let mut cx = Context::from_waker(&waker);
+	let mut idle_polls = 0;
 	loop {
 		// poll until the future is pending and nobody has asked for another poll
 		loop {
@@ -618,26 +624,38 @@ fn drive(sh: &Arc<Shared>, mut fut: Pin<Box<dyn Future<Output = ()>>>, batch: us
 			};
 			st = sh.ctrl.wait_timeout(st, left).unwrap().0;
 		}
-		for b in 0..batch.max(1) {
+		let mut any = false;
+		for _ in 0..batch.max(1) {
 			let Some((_, gate)) = st.blocked.pop_first() else { break };
+			any = true;
 			st.released += 1;
 			let target = st.finished + 1;
 			gate.open();
-			if b + 1 < batch {
-				let t0 = std::time::Instant::now();
-				while st.finished < target {
-					let Some(left) = STALL.checked_sub(t0.elapsed()) else {
-						drop(st);
-						die(&format!("C14: released callback did not return within 20 s ({})", sh.summary()));
-					};
-					st = sh.ctrl.wait_timeout(st, left).unwrap().0;
-				}
+			let t0 = std::time::Instant::now();
+			while st.finished < target {
+				let Some(left) = STALL.checked_sub(t0.elapsed()) else {
+					drop(st);
+					die(&format!("C14: released callback did not return within 20 s ({})", sh.summary()));
+				};
+				st = sh.ctrl.wait_timeout(st, left).unwrap().0;
 			}
 		}
 		drop(st);
-		// the completion of a released task (or, with nothing to release, whatever the stream waits for)
-		if !sig.wait() {
-			die(&format!("C14: stream pending without progress for 20 s ({})", sh.summary()));
+		// The released tasks are complete once the runtime has let go of them; the next poll then
+		// finds their results (if the operator they belong to is polled at all: while the window of
+		// a following operator is full, completions stay unobserved, which is a legal schedule too).
+		// Not the wake-up but this is what the controller waits for, because a join handle that has
+		// never been polled wakes nobody.
+		settle(sh);
+		if any {
+			idle_polls = 0;
+		} else {
+			// nothing waits at a gate and the stream is still pending: poll once more with
+			// everything settled, after that only the stream itself can make the next move
+			idle_polls += 1;
+			if idle_polls > 1 && !sig.wait() {
+				die(&format!("C14: stream pending with no task in flight for 20 s ({})", sh.summary()));
+			}
 		}
 	}
 }
@@ -666,7 +684,7 @@ fn run(case: &Case, plan: Plan) -> Run {
 		}),
 		ctrl: Condvar::new(),
 		spawned: AtomicU64::new(0),
-		armed: (0..stages).map(|_| AtomicBool::new(false)).collect(),
+		case_text: format!("{case:?}"),
 	});
 	let rt = PooledRt::get();
 	let _ctx = rt.0.as_ref().unwrap().enter();
@@ -1113,11 +1131,11 @@ fn main() {
 	// all completion orders of small streams (the window must hold all n tasks)
 	let max_n = (check.cases(5, 6) as usize).min(cpus);
 	check.enumerate("exhaustive-orders", exhaustive_cases(max_n), true, oracle);
-	check.enumerate("chains-small", chain_cases(check.cases(2, 3) as usize), false, oracle);
+	check.enumerate("chains-small", chain_cases(check.cases(3, 4) as usize), false, oracle);
 
 	// generated priorities
 	let top = check.cases(300, 300);
-	let cases = check.cases(4000, 60_000);
+	let cases = check.cases(24_000, 400_000);
 	check.phase(
 		"random-priority",
 		cases,
